@@ -29,6 +29,30 @@ func Other(t *T) {
 	t.s[0] = 5 // SITE-INDEX
 	t.f«inc» // SITE-INCDEC
 	_ = t.f // SITE-READ
+	var ok bool
+	t.f, ok = lookup() // SITE-TUPLE-CALL
+	t.s[1], ok = tab["k"] // SITE-TUPLE-INDEX
+	t.f, t.m = 6, 7 // SITE-PARALLEL
+	_ = ok
+}
+
+func lookup() (int, bool) { return 0, true }
+
+var tab = map[string]int{}
+
+type (
+	//«annG»
+	G1 struct {
+		g int
+	}
+	G2 struct {
+		g int
+	}
+)
+
+func Grouped(a *G1, b *G2) {
+	a.g = 1 // SITE-GROUP-FIRST
+	b.g = 2 // SITE-GROUP-SECOND
 }
 `
 
@@ -39,7 +63,8 @@ func ZZC01Basic() {
 	mut := nd.EnumPad("mut", " @mutable", " plain")
 	op := nd.EnumPad("op", "+=", "-=", "*=", "/=", "%=", "&=", "|=", "^=", "<<=", ">>=", "&^=")
 	inc := nd.Enum("inc", "++", "--")
-	holes := []nd.Hole{{"annT", annT}, {"ctor", ctor}, {"mut", mut}, {"op", op}, {"inc", inc}}
+	annG := nd.EnumPad("annG", " @immutable", " plain")
+	holes := []nd.Hole{{"annT", annT}, {"ctor", ctor}, {"mut", mut}, {"op", op}, {"inc", inc}, {"annG", annG}}
 	files := []nd.File{{Pkg: "zzmod/d", Name: "d.go", Src: c01SrcD}}
 	prog := nd.LoadProgram(files, holes)
 	res := Analyze(prog, config.Default(), "zzmod/d", Facts{}, "imm")
@@ -53,6 +78,12 @@ func ZZC01Basic() {
 		{file, nd.LineOf(c01SrcD, "SITE-MUTABLE"), "IMM01", nd.And(imm, nd.Not(nd.HasPrefix(mut, " @mutable")))},
 		{file, nd.LineOf(c01SrcD, "SITE-INDEX"), "IMM04", imm},
 		{file, nd.LineOf(c01SrcD, "SITE-INCDEC"), "IMM03", imm},
+		{file, nd.LineOf(c01SrcD, "SITE-TUPLE-CALL"), "IMM01", imm},
+		{file, nd.LineOf(c01SrcD, "SITE-TUPLE-INDEX"), "IMM04", imm},
+		{file, nd.LineOf(c01SrcD, "SITE-PARALLEL"), "IMM01", imm}, // t.f (and t.m unless @mutable) on one line: at least the t.f write
+		// the doc of one spec of a type(...) group belongs to that spec only
+		{file, nd.LineOf(c01SrcD, "SITE-GROUP-FIRST"), "IMM01", nd.HasPrefix(annG, " @immutable")},
+		{file, nd.LineOf(c01SrcD, "SITE-GROUP-SECOND"), "IMM01", false},
 	}
 	CheckExact(res.Diags, exp, "C01 basic")
 }
